@@ -199,7 +199,19 @@ def flows_oracle(ctx):
                     continue
                 err = float(np.max(np.abs(back - x)))
                 scale = float(np.max(np.abs(x))) + 1.0
-                if not err <= tol * scale * 50:
+                slack = 0.0
+                if err > tol * scale * 50 and not name.startswith("bnaf"):
+                    # conditioning: how much does the returning map move when the intermediate point moves by ~2 ulp?
+                    # (perturbed MAF scales can be tiny: the intermediate values are huge and the round trip loses digits)
+                    m_ = np.asarray(mid, dtype=float)
+                    try:
+                        hi_ = np.asarray(b(jnp.asarray(m_ * (1 + 4.5e-16) + 1e-300), c), dtype=float)
+                        lo_ = np.asarray(b(jnp.asarray(m_ * (1 - 4.5e-16) - 1e-300), c), dtype=float)
+                        d_ = np.abs(hi_ - lo_)
+                        slack = 64.0 * float(np.max(np.where(np.isfinite(d_), d_, 0.0)))
+                    except Exception:  # noqa: BLE001
+                        slack = 0.0
+                if not err <= tol * scale * 50 + slack:
                     ctx.violation(sig=f"flow:{name}:{direction}", what=f"{name} (dim {dim}, cond {cond}): round trip {direction} error {err:.3g} at x={np.ravel(x).tolist()}",
                                   case=dict(flow=name, dim=dim, cond=cond, direction=direction, x=[fhex(v) for v in np.ravel(x)]), found_input=True,
                                   unit=uf.name, expected="x", observed=back.tolist(), broken="round-trip oracle on flow.bijection")
